@@ -17,7 +17,7 @@ Definition c_fasta_write (v : val) : val :=
   match v with
   | VL [VB n; VB s] =>
     let r := {| name := n; seq := s |} in
-    VL [VL (map VB (write_calls r)); v_outcome VB (marshal_text r)]
+    VL [VB (write r); v_outcome VB (marshal_text r)]
   | _ => v_bad
   end.
 
